@@ -106,9 +106,10 @@ type c06obs struct {
 	Stream       []byte     `json:"stream"` // emitted after the arming point
 	Cuts         []int      `json:"cuts"`   // read boundaries, relative to the arming point
 	Writes       []c06write `json:"writes"`
-	Delivered    int        `json:"dl"` // delivered after arming
-	Written      int        `json:"wr"` // written after arming
-	NB           []byte     `json:"nb"` // NETCONF: what Driver.read is holding when the RPC starts
+	Delivered    int        `json:"dl"`    // delivered after arming
+	Written      int        `json:"wr"`    // written after arming
+	NB           []byte     `json:"nb"`    // NETCONF: what Driver.read is holding when the RPC starts
+	Stale        [][]byte   `json:"stale"` // idle scenarios: the unsolicited bytes, as the reads delivered them
 }
 
 type c06env struct {
@@ -119,6 +120,7 @@ type c06env struct {
 	op    func() (string, error)
 	later []func() (string, error)
 	close func() error
+	unsol func(class int) []byte // idle scenarios: what the device says unasked (by content class)
 }
 
 func c06ident(err error) string {
@@ -213,12 +215,26 @@ func (s c06scen) build() *c06env {
 		}
 		prm := func() (string, error) { return d.GetPrompt() }
 		e.warm = func() error { _, err := send(); return err }
+		e.unsol = func(class int) []byte {
+			log := "\n%LINK-3-UPDOWN: Interface Gi0/1, changed state to down"
+			switch class {
+			case 1:
+				return []byte(log[:len(log)-3]) // an incomplete log line
+			case 2:
+				return []byte(log + "\n" + prompt) // a log line and a fresh prompt
+			case 3:
+				return []byte("\n" + prompt) // just a fresh prompt
+			case 4:
+				return []byte(log + "\n" + prompt[:len(prompt)-1]) // the prompt cut short
+			}
+			return nil
+		}
 		switch s.Name {
-		case "g-send":
+		case "g-send", "g-idle-send":
 			e.op = send
-		case "g-prompt":
+		case "g-prompt", "g-idle-prompt":
 			e.op = prm
-		case "g-inter":
+		case "g-inter", "g-idle-inter":
 			e.op = func() (string, error) {
 				r, err := d.SendInteractive([]*channel.SendInteractiveEvent{
 					{ChannelInput: "enable", ChannelResponse: facts.C06Patterns["password"]},
@@ -313,6 +329,20 @@ func (s c06scen) build() *c06env {
 		}
 		e.op = rpc
 		e.later = []func() (string, error){rpc, rpc}
+		e.unsol = func(class int) []byte {
+			note := srv.Frame(sim.NCReply{Payload: []byte(`<notification xmlns="urn:ietf:params:xml:ns:netconf:notification:1.0"><eventTime>2026-01-01T00:00:00Z</eventTime><link-down><if>Gi0/1</if></link-down></notification>`)})
+			switch class {
+			case 1:
+				return note[:len(note)/2]
+			case 2:
+				return note
+			case 3:
+				return append(append([]byte{}, note...), note[:len(note)/3]...)
+			case 4: // a complete rpc-reply nobody asked for, carrying the id the next RPC will use
+				return srv.Frame(sim.NCReply{Payload: []byte(`<rpc-reply xmlns="urn:ietf:params:xml:ns:netconf:base:1.0" message-id="101"><ok/></rpc-reply>`)})
+			}
+			return nil
+		}
 		if s.Name == "nc11-rpc2" {
 			e.warm = func() error { _, err := rpc(); return err }
 		}
@@ -321,6 +351,7 @@ func (s c06scen) build() *c06env {
 }
 
 func (s c06scen) atOpen() bool { return strings.HasSuffix(s.Name, "-open") }
+func (s c06scen) isIdle() bool { return strings.Contains(s.Name, "-idle-") }
 func (s c06scen) isNC() bool   { return strings.HasPrefix(s.Name, "nc") }
 
 // c06call runs f with the in-child watchdog.
@@ -412,7 +443,53 @@ func c06exec(s c06scen, kind string, k int) (o c06obs) {
 				}
 			})
 		}
-		arm()
+		if s.isIdle() {
+			// k encodes (content class, number of reads): the device speaks unasked, then the
+			// connection is lost, all while no operation is in flight
+			class, parts := k/4, k%4
+			if parts == 0 {
+				parts = 1
+			}
+			data := e.unsol(class)
+			e.pipe.SetFaults(func(p *sim.Pipe) {
+				if kind == "eof" {
+					p.EOFAt = p.Delivered + len(data)
+				} else {
+					p.ErrAt = p.Delivered + len(data)
+				}
+			})
+			for i := 0; i < parts; i++ {
+				lo, hi := len(data)*i/parts, len(data)*(i+1)/parts
+				e.pipe.Snapshot(func() {
+					e.pipe.Emit(data[lo:hi])
+					e.pipe.EmitBarrier()
+				})
+				time.Sleep(400 * time.Microsecond)
+			}
+			for t0 := time.Now(); ; {
+				if at, _ := e.lossy.Loss(); !at.IsZero() {
+					break
+				}
+				if time.Since(t0) > time.Second {
+					o.Setup = "the loss was not reported within 1 s while idle"
+					return o
+				}
+				time.Sleep(200 * time.Microsecond)
+			}
+			time.Sleep(3 * time.Millisecond) // the read goroutine exits / blocks handing over the error
+			e.pipe.Snapshot(func() {
+				d := e.pipe.DeliveredBytes()
+				pos := 0
+				for i, sz := range e.pipe.ReadLog {
+					if i >= baseReads {
+						o.Stale = append(o.Stale, append([]byte{}, d[pos:pos+sz]...))
+					}
+					pos += sz
+				}
+			})
+		} else {
+			arm()
+		}
 		o.Op = c06call(e.lossy, e.op)
 		if !o.Op.Hang && !(kind != "" && o.Op.Ident == "timeout") {
 			for _, f := range e.later {
@@ -482,11 +559,11 @@ func (s c06scen) program() []c06phase {
 		return []c06phase{c06W(cmd), c06E(cmd), c06W("\n"), c06P(prompt)}
 	}
 	switch s.Name {
-	case "g-send":
+	case "g-send", "g-idle-send":
 		return sendG(s.cmd, "Channel.promptPattern")
-	case "g-prompt":
+	case "g-prompt", "g-idle-prompt":
 		return []c06phase{c06W("\n"), c06P("Channel.promptPattern")}
-	case "g-inter":
+	case "g-inter", "g-idle-inter":
 		return []c06phase{c06W("enable"), c06E("enable"), c06W("\n"), c06P("C06.password"),
 			c06W(s.secret), c06W("\n"), c06P("Channel.promptPattern")}
 	case "g-open":
@@ -826,6 +903,8 @@ func c06ks(c *ctx, L int) []int {
 }
 
 type c06sweep struct {
+	idle bool
+	ireq map[int]int // idle sweeps: index of each case's model request
 	job  c06job
 	ref  c06obs
 	L, W int
@@ -888,7 +967,11 @@ func runC06(c *ctx) {
 			return
 		}
 		k, _ := strconv.Atoi(f[6])
-		addScen(s, []string{f[5]}, k)
+		if s.isIdle() {
+			sweeps = append(sweeps, &c06sweep{idle: true, job: c06job{scen: s, kind: f[5], ks: []int{k}}})
+		} else {
+			addScen(s, []string{f[5]}, k)
+		}
 	} else {
 		rxDiff(c, []string{"Netconf.v1Dot", "Channel.promptPattern"}, c.n(150, 1500))
 		c06rx(c)
@@ -906,6 +989,15 @@ func runC06(c *ctx) {
 		for _, name := range []string{"g-send", "g-prompt", "nc10-open", "nc10-rpc", "nc11-rpc"} {
 			s := c06mk(name, c.rng.U64()%1000000, 2, 1)
 			addScen(s, []string{"eof", "err"}, -1)
+		}
+		// loss while idle, with unsolicited output still unread in the queue
+		for _, name := range c06idleScenarios {
+			for seg := 0; seg < c.n(1, 3); seg++ {
+				s := c06mk(name, c.rng.U64()%1000000, 0, 0)
+				for _, kind := range []string{"eof", "err"} {
+					sweeps = append(sweeps, &c06sweep{idle: true, job: c06job{scen: s, kind: kind, ks: c06idleCodes(s)}})
+				}
+			}
 		}
 		// a configuration in which the read goroutine re-reads a failing transport at once
 		c06witness(c, -1)
@@ -925,12 +1017,41 @@ func runC06(c *ctx) {
 	}
 	wg.Wait()
 	var reqs []string
-	for _, sw := range sweeps {
-		reqs = append(reqs, sw.req)
+	at := make([]int, len(sweeps))
+	for i, sw := range sweeps {
+		if !sw.idle {
+			at[i] = len(reqs)
+			reqs = append(reqs, sw.req)
+			continue
+		}
+		sw.ireq = map[int]int{}
+		if sw.job.scen.isNC() {
+			continue
+		}
+		for _, k := range sw.job.ks {
+			o, ok := outs[i][k]
+			if !ok || o.died != "" || o.obs.Setup != "" {
+				continue
+			}
+			f := []string{"c06", "idle", "1000", "0", sw.job.kind, "3", vlib.HexList(o.obs.Stale)}
+			for _, ph := range sw.job.scen.program() {
+				if ph.write == nil {
+					f = append(f, "r;"+ph.pred)
+				} else {
+					f = append(f, "w;"+vlib.Hex(ph.write)+";.")
+				}
+			}
+			sw.ireq[k] = len(reqs)
+			reqs = append(reqs, strings.Join(f, " "))
+		}
 	}
 	ans := c.ask(reqs)
 	for i, sw := range sweeps {
-		c06judge(c, sw, outs[i], ans[i])
+		if sw.idle {
+			c06judgeIdle(c, sw, outs[i], ans)
+		} else {
+			c06judge(c, sw, outs[i], ans[at[i]])
+		}
 	}
 	res.TracesVsImpl += len(sweeps)
 }
@@ -1173,6 +1294,122 @@ func c06confirmSlow(c *ctx, sw *c06sweep, k int) bool {
 		c06slowConfirmed++
 	}
 	return slow
+}
+
+var c06idleScenarios = []string{"g-idle-prompt", "g-idle-send", "g-idle-inter", "nc10-idle-rpc", "nc11-idle-rpc"}
+
+// c06idleCodes lists (content class, reads) codes: class*4 + reads.
+func c06idleCodes(s c06scen) []int {
+	classes := 4
+	if s.isNC() {
+		classes = 3
+	}
+	ks := []int{1} // nothing unsolicited, plain idle loss
+	for cl := 1; cl <= classes; cl++ {
+		for parts := 1; parts <= 3; parts++ {
+			ks = append(ks, cl*4+parts)
+		}
+	}
+	return ks
+}
+
+// c06judgeIdle: the connection was lost while idle, with the device's unsolicited output (possibly
+// a complete prompt / a complete NETCONF message) delivered but unread. later_ops_error_any_queue:
+// every operation that has to read returns an error, whatever the queue holds.
+func c06judgeIdle(c *ctx, sw *c06sweep, out map[int]c06out, ans []string) {
+	res := c.res
+	s := sw.job.scen
+	kind := sw.job.kind
+	for _, k := range sw.job.ks {
+		caseLine := fmt.Sprintf("c06case %s %s %d", s.id(), kind, k)
+		o, ok := out[k]
+		if !ok {
+			if c06bad.Load() > c06badMax {
+				res.Count("skipped after too many failures")
+				continue
+			}
+			res.Fail("machinery", caseLine, "no outcome from the child process", "child")
+			continue
+		}
+		res.Count("scenario:" + s.Name)
+		res.Count("kind:" + kind)
+		res.Count(fmt.Sprintf("idle unsolicited class:%d reads:%d", k/4, len(o.obs.Stale)))
+		res.Case(caseLine, true)
+		res.InDomain++
+		if o.died != "" {
+			sig := "process-died"
+			if o.died == "watchdog" {
+				sig = "hang:child-watchdog"
+			} else if i := strings.Index(o.died, "panic:"); i >= 0 {
+				sig = "panic:" + firstLine(o.died[i+6:])
+			}
+			res.Fail("oracle", caseLine, "the process did not survive a loss while idle: "+o.died, sig)
+			continue
+		}
+		if o.obs.Setup != "" {
+			res.Fail("machinery", caseLine, "scenario setup failed: "+o.obs.Setup, "setup")
+			continue
+		}
+		stale := string(bytes.Join(o.obs.Stale, nil))
+		modelSet := []string{}
+		if ri, has := sw.ireq[k]; has {
+			m := strings.Split(ans[ri], "/")
+			if len(m) != 3 {
+				res.Fail("machinery", caseLine, "driver answered "+ans[ri], "driver")
+				continue
+			}
+			modelSet = strings.Split(m[1], "|")
+			bad := m[0] != "1" || m[2] != "1"
+			for _, x := range modelSet {
+				if !strings.HasPrefix(x, "err:") {
+					bad = true
+				}
+			}
+			if bad {
+				res.Fail("machinery", caseLine, "later_ops_error_any_queue says error within the bound; the model answered "+ans[ri], "model-vs-spec")
+			}
+		}
+		if k == 9 {
+			res.Sample(map[string]any{"case": caseLine, "unsolicited": stale, "reads": len(o.obs.Stale), "model": strings.Join(modelSet, "|"), "impl": o.obs.Op.Ident, "later": fmt.Sprintf("%v", o.obs.Later)})
+		}
+		all := append([]c06res{o.obs.Op}, o.obs.Later...)
+		failed := false
+		for i, r := range all {
+			which := "the first operation after the loss"
+			if i > 0 {
+				which = fmt.Sprintf("later operation %d", i)
+			}
+			switch {
+			case r.Hang:
+				res.Fail("oracle", caseLine, fmt.Sprintf("%s hung (%s while idle, unread %q)", which, kind, stale), "hang:after-idle-loss")
+				failed = true
+			case r.Ident == "nil":
+				res.Fail("oracle", caseLine, fmt.Sprintf("%s while idle with %q delivered but unread (%d reads): %s reported success (%q) on the dead connection", kind, stale, len(o.obs.Stale), which, r.Result), "success-after-idle-loss:stale-queue:"+kind+":"+map[bool]string{true: "first", false: "later"}[i == 0])
+				failed = true
+			case r.Ident == "timeout":
+				res.Fail("oracle", caseLine, fmt.Sprintf("%s while idle: %s waited out its timeout (%d ms)", kind, which, r.ElapsedUs/1000), "waited-out-timeout:after-idle-loss")
+				failed = true
+			case r.SinceLoss > c06Prompt.Microseconds():
+				res.Fail("oracle", caseLine, fmt.Sprintf("%s while idle: %s returned after %d ms", kind, which, r.SinceLoss/1000), "not-prompt:after-idle-loss")
+				failed = true
+			}
+			if failed {
+				break
+			}
+		}
+		if failed || len(modelSet) == 0 {
+			continue
+		}
+		okc := false
+		for _, x := range modelSet {
+			if c06classOf(x) == o.obs.Op.Ident {
+				okc = true
+			}
+		}
+		if !okc {
+			res.Fail("correspondence", caseLine, fmt.Sprintf("implementation returned %s, the model allows %s (unread %q)", o.obs.Op.Ident, strings.Join(modelSet, "|"), stale), "impl-vs-model")
+		}
+	}
 }
 
 func firstLine(s string) string {
